@@ -1132,7 +1132,14 @@ pub fn gen_c16(rng: &mut Prng, thorough: bool, out: &mut Out) {
         let bad_sig = crate::search_codec::codec_bad_points(rng, g1, if thorough { 6 } else { 2 });
         let bad_pk = crate::search_codec::codec_bad_points(rng, !g1, if thorough { 6 } else { 2 });
         for (t, e) in valid_encodings(rng, g1, if thorough { 6 } else { 3 }) {
-            let case = |out: &mut Out, b: &[u8]| out.case(g1, &format!("bytes_rt w{} x{}", t, hx(b)));
+            let case = |out: &mut Out, b: &[u8]| {
+                out.case(g1, &format!("bytes_rt w{} x{}", t, hx(b)));
+                if t == "skenum" {
+                    // the enum's own importers see the same truncated / extended / relabelled inputs
+                    out.case(g1, &format!("skenum_from_be x{}", hx(b)));
+                    out.case(g1, &format!("skenum_from_le x{}", hx(b)));
+                }
+            };
             // truncations: every proper prefix (short types) or a spread
             let step = if e.len() <= 120 || thorough { 1 } else { 7 };
             let mut k = 0;
